@@ -361,6 +361,15 @@ Definition spec_referrer (h : headers) : list bytes :=
 Definition spec_security (hist : list (bytes * csp_rule)) (server path : bytes) (h : headers) : headers :=
   map (pair H_CSP) (spec_csp hist path h) ++ map (pair H_REFERRER) (spec_referrer h) ++ [(H_SERVER, server)].
 
+(** the reply the property demands for a nonce page when the generator drew [n] *)
+Definition nonce_reply (n : bytes) (handler : page) : page :=
+  {| pg_body := nonce_spec n (pg_body handler); pg_headers := h_insert H_NONCE n (pg_headers handler); pg_pref := SNone |}.
+
+(** a policy is a list of directives separated by "; ": what precedes a directive is empty or ends
+    with the separator, what follows is empty or starts with it *)
+Definition sep_tail (post : bytes) : Prop := post = [] \/ exists p, post = SEMI_SP ++ p.
+Definition sep_head (pre : bytes) : Prop := pre = [] \/ exists p, pre = p ++ SEMI_SP.
+
 (** ---- the send path on a small fixture ([handle_connection] -> [handle_cache] -> [SendKind::send]) ----
     A host with response cache, no file system, [Extensions::new()] + CSP rule set + server header and
     Prepare handlers for single paths.  What is modelled is which response *head* reaches the
